@@ -59,6 +59,8 @@ func runReplay(path, out string, c *collector, m *meta) {
 		m.Kinds = append(m.Kinds, writeKind(out, "rcases", "rcase", "rcase_model_ok", "rcase_verdict", c.coq, c.js, 400, ""))
 	case "conn-history":
 		runConnHistory(out, m, 64)
+	case "conn-limiter":
+		runLimiterScenario(out, m)
 	case "v2":
 		o := readWith(vcaseInput(rp.VC, rp.Fam, rp.Len, rp.Seed), nil)
 		fmt.Printf("replay v2: ok=%v consumed=%d err=%q\n", o.OK, o.Consumed, o.Err)
